@@ -260,6 +260,9 @@ type c15Actor struct {
 type c15ConcCase struct {
 	Cap    int        `json:"cap"`
 	Actors []c15Actor `json:"actors"`
+	// Aligned: actors get no individual micro-offset, so operations of different actors can fall into
+	// the same virtual instant and race there (order-dependent oracles then abstain for those pairs).
+	Aligned bool `json:"aligned,omitempty"`
 }
 
 func c15ConcGen(rt *rapid.T) c15ConcCase {
@@ -281,8 +284,11 @@ func c15ConcGen(rt *rapid.T) c15ConcCase {
 		c.Actors = append(c.Actors, a)
 	}
 	if rapid.IntRange(0, 2).Draw(rt, "hasClose") == 0 {
-		c.Actors = append(c.Actors, c15Actor{Kind: "close", Start: rapid.IntRange(0, 80).Draw(rt, "closeAt")})
+		// N = 1: the closer first takes one item (if there is one) and closes back to back, which lets a
+		// pusher that was just woken by the pop find the queue closed when it resumes
+		c.Actors = append(c.Actors, c15Actor{Kind: "close", Start: rapid.IntRange(0, 80).Draw(rt, "closeAt"), N: rapid.IntRange(0, 1).Draw(rt, "popFirst")})
 	}
+	c.Aligned = rapid.IntRange(0, 3).Draw(rt, "aligned") == 0
 	return c
 }
 
@@ -304,6 +310,7 @@ func c15ConcRun(t *testing.T, c c15ConcCase) (res vfResult) {
 	var mu sync.Mutex
 	var events []*c15Event
 	closedAt := time.Duration(-1)
+	var atClose map[int]bool
 	var base time.Time
 	now := func() time.Duration { return time.Since(base) }
 	blockedPush, blockedPop := int32(0), int32(0)
@@ -317,6 +324,9 @@ func c15ConcRun(t *testing.T, c c15ConcCase) (res vfResult) {
 		for ai, a := range c.Actors {
 			ai, a := ai, a
 			off := time.Duration(ai+1) * 10 * time.Microsecond
+			if c.Aligned {
+				off = 0
+			}
 			switch a.Kind {
 			case "push":
 				items := make([]int, a.N)
@@ -385,8 +395,32 @@ func c15ConcRun(t *testing.T, c c15ConcCase) (res vfResult) {
 				go func() {
 					defer wg.Done()
 					time.Sleep(time.Duration(a.Start)*time.Millisecond + off)
-					q.Close()
+					var ev *c15Event
+					if a.N > 0 {
+						dead, cancel := context.WithCancel(context.Background())
+						cancel()
+						ev = &c15Event{actor: ai, kind: "pop", begin: now()}
+						rpc, err := q.Pop(dead) // never blocks: item if any, else ErrQueueCancelled
+						q.Close()
+						ev.end, ev.done, ev.err, ev.item = now(), true, err, c15ItemNo(rpc)
+					} else {
+						q.Close()
+					}
+					// what the queue held once Close had returned: nothing may join it afterwards
+					q.queueMu.Lock()
+					snap := map[int]bool{}
+					for _, r := range q.queue.priority {
+						snap[c15ItemNo(r)] = true
+					}
+					for _, r := range q.queue.normal {
+						snap[c15ItemNo(r)] = true
+					}
+					q.queueMu.Unlock()
 					mu.Lock()
+					if ev != nil {
+						events = append(events, ev)
+					}
+					atClose = snap
 					closedAt = now()
 					mu.Unlock()
 				}()
@@ -444,7 +478,7 @@ func c15ConcRun(t *testing.T, c c15ConcCase) (res vfResult) {
 						res.violate("C15/closed-not-reported", 0, "pop reported closed on a queue never closed")
 					}
 				} else if errors.Is(ev.err, ErrQueueCancelled) {
-					if a := c.Actors[ev.actor]; a.Cancel == 0 {
+					if a := c.Actors[ev.actor]; a.Cancel == 0 && a.Kind != "close" {
 						res.violate("C15/cancel-not-reported", 0, "pop reported cancellation but its context was never cancelled")
 					}
 				} else {
@@ -472,6 +506,13 @@ func c15ConcRun(t *testing.T, c c15ConcCase) (res vfResult) {
 				}
 				if p && inq[it] {
 					res.violate("C15/duplicated", 0, "item %d popped and still queued", it)
+				}
+			}
+		}
+		if closed && atClose != nil {
+			for _, it := range remaining {
+				if !atClose[it] {
+					res.violate("C15/push-on-closed-accepted", 0, "item %d joined the queue after Close had returned (its push was silently accepted)", it)
 				}
 			}
 		}
